@@ -449,6 +449,9 @@ class NetRun:
                 self._check_callbacks(exp, fields, cbs)
             raise StopRun()
         if fields is None:
+            if self.link_fault is not None:
+                self.link_fault.write_exc = None  # a rejected line has no reply to lose: the armed fault is withdrawn
+                self.link_fault = None
             self.probe("rejected_lines")
             snap_after = (W.projection(gateway.sensors), W.transient(gateway.sensors), W.ota_state(gateway))
             if snap_after != snap_before or out or cbs:
@@ -1297,6 +1300,10 @@ class NetRun:
         for index, op in enumerate(ops):
             self.op_index = index
             kind = op[0]
+            if self.link_fault is not None and kind != "line":
+                # the write error armed by a linkdrop op is meant for the reply of the next LINE only
+                self.link_fault.write_exc = None
+                self.link_fault = None
             if kind == "line":
                 self.op_line(op[1], op[2] if len(op) > 2 else "\n")
             elif kind == "readonly_tick":
